@@ -1,0 +1,15 @@
+//go:build verif
+// +build verif
+
+package tars
+
+import "github.com/TarsCloud/TarsGo/tars/protocol/res/requestf"
+
+// Verification hooks (build tag verif only): the server-side response framing functions, which are
+// unexported methods of Protocol that do not use the receiver's state.
+
+// VerifRsp2Byte is Protocol.rsp2Byte.
+func VerifRsp2Byte(rsp *requestf.ResponsePacket) []byte { return (&Protocol{}).rsp2Byte(rsp) }
+
+// VerifReq2Byte is Protocol.req2Byte.
+func VerifReq2Byte(rsp *requestf.ResponsePacket) []byte { return (&Protocol{}).req2Byte(rsp) }
